@@ -331,7 +331,7 @@ Section CacheProofs.
   Variable C : Type.
   Variable clen cmem : C -> Z.
   Variable dirsize : Z.
-  Hypothesis Hcm : forall c, 0 <= cmem c <= clen c.
+  Hypothesis Hcm : forall c, 0 <= cmem c.
   Variable K : list name.
   Hypothesis HK : prefix_free K.
 
@@ -566,42 +566,63 @@ Section CacheProofs.
 
   (* update_file_futures_and_memory, then completion of the future, re-establishes the invariant *)
   Lemma ufm_inv n s c t ch :
-    Mid n s [] -> lookup C (c_disk C s) n = Some (File c) -> In n K -> cmem c <= c_max C s ->
-    exists s', ufm C s n (cmem c) t ch = (s', None) /\ Inv (resolve C s' (FOk c)) /\
+    Mid n s [] -> lookup C (c_disk C s) n = Some (File c) -> In n K ->
+    exists s', ufm C true true s n (cmem c) t ch = (s', None) /\ Inv (resolve C s' (FOk c)) /\
                c_disk C s' = c_disk C s /\ c_max C s' = c_max C s.
   Proof.
-    intros M Hl HnK Hle. unfold ufm, recover_memory.
-    destruct (cmem c >? c_max C s) eqn:Egt; [rewrite Z.gtb_ltb in Egt; apply Z.ltb_lt in Egt; lia|].
-    destruct (rm_loop_mid n (S (length (c_heap C s))) (cmem c) s [] ch M ltac:(lia) ltac:(pose proof (Hcm c); lia))
-      as (s1 & Hloop & M1 & Hfit & Hd & Hmx).
-    rewrite Hloop.
-    assert (Ecan : (c_mem C s1 + cmem c <=? c_max C s1) = true) by (apply Z.leb_le; exact Hfit).
-    rewrite Ecan.
-    destruct (mid_pend _ _ _ M1) as (en & A1 & A2 & A3). rewrite A1.
-    eexists. split; [reflexivity|].
-    cbn [c_disk c_max touch]. split; [|split; assumption].
-    rewrite app_nil_r in *.
-    destruct M1 as [N1 N2 _ N4 N5 N6 N7 N8 _ N10 N11]. rewrite app_nil_r in *.
-    set (enew := mkE C false (cmem c) (e_fut C en)).
-    constructor; rewrite ?resolve_entries; unfold resolve; cbn [c_entries c_heap c_mem c_max c_disk touch].
-    - rewrite keys_mapv. apply nodup_aset. exact N1.
-    - rewrite hnames_app. simpl. apply nodup_snoc; [apply nodup_without; exact N2|].
-      intros H. apply hnames_without in H. tauto.
-    - intros m. rewrite keys_mapv, hnames_app, in_app_iff, hnames_without, keys_aset. simpl.
-      split.
-      + intros [[H1 H2]|[H|[]]]; [left; apply N4; exact H1 | right; auto].
-      + intros [H| ->]; [|right; auto]. destruct (name_eq_dec m n) as [->|Hne]; [right; auto|]. left. split; [apply N5; assumption | exact Hne].
-    - intros m e. rewrite assoc_mapv. destruct (name_eq_dec m n) as [->|Hne].
-      + rewrite assoc_aset_same. simpl. intros H. inversion H; subst e. unfold res1, enew. cbn [e_fut e_writing e_bytes].
-        rewrite A2. cbn [e_fut e_writing e_bytes]. split; [reflexivity|]. exists c. rewrite Hd. auto.
-      + rewrite assoc_aset_other by exact Hne. destruct (assoc (c_entries C s1) m) as [e0|] eqn:E0; simpl; [|discriminate].
+    intros M Hl HnK. unfold ufm. cbn [andb].
+    destruct (cmem c >? c_max C s) eqn:Egt.
+    - (* can never fit: stored, served uncached *)
+      destruct (mid_pend _ _ _ M) as (en & A1 & A2 & A3). rewrite A1.
+      eexists. split; [reflexivity|]. cbn [c_disk c_max]. split; [|split; reflexivity].
+      destruct M as [N1 N2 _ N4 N5 N6 N7 N8 _ N10 N11]. rewrite app_nil_r in *.
+      constructor; rewrite ?resolve_entries; unfold resolve; cbn [c_entries c_heap c_mem c_max c_disk].
+      + rewrite keys_mapv. apply nodup_aremove. exact N1.
+      + apply nodup_without. exact N2.
+      + intros m. rewrite keys_mapv, hnames_without, keys_aremove. split.
+        * intros [H1 H2]. split; [apply N4; exact H1 | exact H2].
+        * intros [H1 H2]. split; [apply N5; assumption | exact H2].
+      + intros m e. rewrite assoc_mapv. destruct (name_eq_dec m n) as [->|Hne]; [rewrite assoc_aremove_same; discriminate|].
+        rewrite assoc_aremove_other by exact Hne. destruct (assoc (c_entries C s) m) as [e0|] eqn:E0; simpl; [|discriminate].
         intros H. inversion H; subst e. pose proof (N6 m e0 Hne E0) as Hg. destruct Hg as (G1 & c0 & G2 & G3 & G4).
         unfold res1. rewrite G2. split; [exact G1|]. exists c0. auto.
-    - rewrite sumb_mapv by (intros e; unfold res1; destruct (e_fut C e); reflexivity).
-      rewrite sumb_aset, N7. reflexivity.
-    - pose proof (Hcm c). lia.
-    - exact N10.
-    - intros m. rewrite keys_mapv, keys_aset. intros [H| ->]; [apply N11; exact H | exact HnK].
+      + rewrite sumb_mapv by (intros e; unfold res1; destruct (e_fut C e); reflexivity). exact N7.
+      + exact N8.
+      + exact N10.
+      + intros m. rewrite keys_mapv, keys_aremove. intros [H _]. apply N11. exact H.
+    - rewrite Z.gtb_ltb in Egt. apply Z.ltb_ge in Egt. unfold recover_memory.
+      assert (Egt' : (cmem c >? c_max C s) = false) by (rewrite Z.gtb_ltb; apply Z.ltb_ge; exact Egt).
+      rewrite Egt'.
+      destruct (rm_loop_mid n (S (length (c_heap C s))) (cmem c) s [] ch M ltac:(lia) ltac:(pose proof (Hcm c); lia))
+        as (s1 & Hloop & M1 & Hfit & Hd & Hmx).
+      rewrite Hloop.
+      assert (Ecan : (c_mem C s1 + cmem c <=? c_max C s1) = true) by (apply Z.leb_le; exact Hfit).
+      rewrite Ecan.
+      destruct (mid_pend _ _ _ M1) as (en & A1 & A2 & A3). rewrite A1.
+      eexists. split; [reflexivity|].
+      cbn [c_disk c_max touch]. split; [|split; assumption].
+      rewrite app_nil_r in *.
+      destruct M1 as [N1 N2 _ N4 N5 N6 N7 N8 _ N10 N11]. rewrite app_nil_r in *.
+      set (enew := mkE C false (cmem c) (e_fut C en)).
+      constructor; rewrite ?resolve_entries; unfold resolve; cbn [c_entries c_heap c_mem c_max c_disk touch].
+      + rewrite keys_mapv. apply nodup_aset. exact N1.
+      + rewrite hnames_app. simpl. apply nodup_snoc; [apply nodup_without; exact N2|].
+        intros H. apply hnames_without in H. tauto.
+      + intros m. rewrite keys_mapv, hnames_app, in_app_iff, hnames_without, keys_aset. simpl.
+        split.
+        * intros [[H1 H2]|[H|[]]]; [left; apply N4; exact H1 | right; auto].
+        * intros [H| ->]; [|right; auto]. destruct (name_eq_dec m n) as [->|Hne]; [right; auto|]. left. split; [apply N5; assumption | exact Hne].
+      + intros m e. rewrite assoc_mapv. destruct (name_eq_dec m n) as [->|Hne].
+        * rewrite assoc_aset_same. simpl. intros H. inversion H; subst e. unfold res1, enew. cbn [e_fut e_writing e_bytes].
+          rewrite A2. cbn [e_fut e_writing e_bytes]. split; [reflexivity|]. exists c. rewrite Hd. auto.
+        * rewrite assoc_aset_other by exact Hne. destruct (assoc (c_entries C s1) m) as [e0|] eqn:E0; simpl; [|discriminate].
+          intros H. inversion H; subst e. pose proof (N6 m e0 Hne E0) as Hg. destruct Hg as (G1 & c0 & G2 & G3 & G4).
+          unfold res1. rewrite G2. split; [exact G1|]. exists c0. auto.
+      + rewrite sumb_mapv by (intros e; unfold res1; destruct (e_fut C e); reflexivity).
+        rewrite sumb_aset, N7. reflexivity.
+      + pose proof (Hcm c). lia.
+      + exact N10.
+      + intros m. rewrite keys_mapv, keys_aset. intros [H| ->]; [apply N11; exact H | exact HnK].
   Qed.
 
   Lemma file_of_some (o : option (node C)) c : file_of C o = Some c -> o = Some (File c).
@@ -609,7 +630,7 @@ Section CacheProofs.
 
   (* ---- get_file ---- *)
   Lemma get_inv s n t ch : Inv s -> In n K ->
-    exists s', get_file C clen cmem dirsize s n t ch =
+    exists s', get_file C clen cmem dirsize true true s n t ch =
                  (s', match file_of C (lookup C (c_disk C s) n) with
                       | None => inr FileNotFound
                       | Some c => if clen c >? c_max C s then inr MemoryErr else inl c
@@ -650,15 +671,15 @@ Section CacheProofs.
         - intros x [].
         - exact I7.
         - intros m Hm. apply keys_aset in Hm. destruct Hm as [Hm| ->]; [apply I8; exact Hm | exact HnK]. }
-      destruct (ufm_inv n s1 c t ch M El HnK ltac:(pose proof (Hcm c); unfold s1; cbn [c_max]; lia)) as (s' & Hu & Hi & Hd & Hm).
+      destruct (ufm_inv n s1 c t ch M El HnK) as (s' & Hu & Hi & Hd & Hm).
       fold s1. rewrite Hu. eexists. split; [reflexivity|]. split; [exact Hi|].
       unfold resolve. cbn [c_disk c_max]. split; [rewrite Hd | rewrite Hm]; reflexivity.
   Qed.
 
   (* ---- update_file ---- *)
   Lemma update_inv s n c t ch : Inv s -> In n K ->
-    if clen c >? c_max C s then update_file C clen cmem s n c t ch = (s, inr MemoryErr)
-    else exists s', update_file C clen cmem s n c t ch = (s', inl true) /\ Inv s' /\ c_max C s' = c_max C s /\
+    if clen c >? c_max C s then update_file C clen cmem true true s n c t ch = (s, inr MemoryErr)
+    else exists s', update_file C clen cmem true true s n c t ch = (s', inl true) /\ Inv s' /\ c_max C s' = c_max C s /\
                     lookup C (c_disk C s') n = Some (File c) /\
                     forall k, In k K -> k <> n -> file_of C (lookup C (c_disk C s') k) = file_of C (lookup C (c_disk C s) k).
   Proof.
@@ -710,7 +731,7 @@ Section CacheProofs.
       - exact Hok2.
       - intros m Hm. apply keys_aset in Hm. destruct Hm as [Hm| ->]; [|exact HnK].
         apply keys_aremove in Hm. apply I8. tauto. }
-    destruct (ufm_inv n s1 c t ch M Hl2 HnK ltac:(pose proof (Hcm c); unfold s1; cbn [c_max]; lia)) as (s' & Hu & Hi & Hd & Hmx).
+    destruct (ufm_inv n s1 c t ch M Hl2 HnK) as (s' & Hu & Hi & Hd & Hmx).
     fold s1. rewrite Hu. eexists. split; [reflexivity|]. split; [exact Hi|].
     unfold resolve. cbn [c_disk c_max]. rewrite Hd, Hmx. unfold s1. cbn [c_disk c_max].
     split; [reflexivity|]. split; [exact Hl2 | exact Hoth].
@@ -772,7 +793,7 @@ Section CacheProofs.
     c_max C s = s_max C sp /\ forall k, In k K -> assoc (s_map C sp) k = file_of C (lookup C (c_disk C s) k).
 
   Lemma step_refines s sp o : Inv s -> Rel s sp -> op_ok o ->
-    exists s' x, kvs_step C clen cmem dirsize true s o = (s', x) /\
+    exists s' x, kvs_step C clen cmem dirsize true true true s o = (s', x) /\
                  spec_step C clen sp o = (fst (spec_step C clen sp o), x) /\
                  Inv s' /\ Rel s' (fst (spec_step C clen sp o)).
   Proof.
@@ -803,21 +824,21 @@ Section CacheProofs.
   Qed.
 
   Lemma run_refines : forall ops s sp, Inv s -> Rel s sp -> Forall op_ok ops ->
-    snd (kvs_run C clen cmem dirsize true s ops) = snd (spec_run C clen sp ops) /\
-    Inv (fst (kvs_run C clen cmem dirsize true s ops)) /\
-    Rel (fst (kvs_run C clen cmem dirsize true s ops)) (fst (spec_run C clen sp ops)).
+    snd (kvs_run C clen cmem dirsize true true true s ops) = snd (spec_run C clen sp ops) /\
+    Inv (fst (kvs_run C clen cmem dirsize true true true s ops)) /\
+    Rel (fst (kvs_run C clen cmem dirsize true true true s ops)) (fst (spec_run C clen sp ops)).
   Proof.
     induction ops as [|o ops IH]; intros s sp I R Hok; [simpl; auto|].
     inversion Hok as [|? ? Ho Hops]; subst.
     destruct (step_refines s sp o I R Ho) as (s' & x & Hk & Hs & Hi & Hr).
     cbn [kvs_run spec_run]. rewrite Hk, Hs.
     destruct (IH s' (fst (spec_step C clen sp o)) Hi Hr Hops) as (E1 & E2 & E3).
-    destruct (kvs_run C clen cmem dirsize true s' ops) as [s2 xs] eqn:Ek.
+    destruct (kvs_run C clen cmem dirsize true true true s' ops) as [s2 xs] eqn:Ek.
     destruct (spec_run C clen (fst (spec_step C clen sp o)) ops) as [sp2 ys] eqn:Es.
     cbn [fst snd] in *. subst ys. auto.
   Qed.
 
-  Lemma step_inv s o : Inv s -> op_ok o -> Inv (fst (kvs_step C clen cmem dirsize true s o)).
+  Lemma step_inv s o : Inv s -> op_ok o -> Inv (fst (kvs_step C clen cmem dirsize true true true s o)).
   Proof.
     intros I Hok. destruct o as [n c t ch|n t ch|n|mx]; cbn [kvs_step op_ok] in *.
     - pose proof (update_inv s n c t ch I Hok) as U. destruct (clen c >? c_max C s).
@@ -829,14 +850,14 @@ Section CacheProofs.
     - apply open_inv; [exact (inv_disk _ I) | exact Hok].
   Qed.
 
-  Lemma run_inv : forall ops s, Inv s -> Forall op_ok ops -> Inv (fst (kvs_run C clen cmem dirsize true s ops)).
+  Lemma run_inv : forall ops s, Inv s -> Forall op_ok ops -> Inv (fst (kvs_run C clen cmem dirsize true true true s ops)).
   Proof.
     induction ops as [|o ops IH]; intros s I Hok; [exact I|].
     inversion Hok as [|? ? Ho Hops]; subst. cbn [kvs_run].
     pose proof (step_inv s o I Ho) as Hi.
-    destruct (kvs_step C clen cmem dirsize true s o) as [s1 x]. cbn [fst] in Hi.
+    destruct (kvs_step C clen cmem dirsize true true true s o) as [s1 x]. cbn [fst] in Hi.
     pose proof (IH s1 Hi Hops) as H2.
-    destruct (kvs_run C clen cmem dirsize true s1 ops) as [s2 xs]. exact H2.
+    destruct (kvs_run C clen cmem dirsize true true true s1 ops) as [s2 xs]. exact H2.
   Qed.
 
   (* what the invariant says, in the words of the property *)
@@ -855,16 +876,35 @@ Section CacheProofs.
 
   Theorem accounting_all_histories d0 mx ops :
     disk_ok C K d0 -> 0 <= mx -> Forall op_ok ops ->
-    accounting (fst (kvs_run C clen cmem dirsize true (open_cache C d0 mx) ops)).
+    accounting (fst (kvs_run C clen cmem dirsize true true true (open_cache C d0 mx) ops)).
   Proof. intros Hd Hmx Hok. apply inv_accounting, run_inv; [apply open_inv; assumption | exact Hok]. Qed.
 
   Theorem refines_dictionary d0 m0 mx ops :
     disk_ok C K d0 -> 0 <= mx -> (forall k, In k K -> assoc m0 k = file_of C (lookup C d0 k)) -> Forall op_ok ops ->
-    snd (kvs_run C clen cmem dirsize true (open_cache C d0 mx) ops) = snd (spec_run C clen (mkS C m0 (norm_max mx)) ops).
+    snd (kvs_run C clen cmem dirsize true true true (open_cache C d0 mx) ops) = snd (spec_run C clen (mkS C m0 (norm_max mx)) ops).
   Proof.
     intros Hd Hmx Hm Hok.
     apply (run_refines ops (open_cache C d0 mx) (mkS C m0 (norm_max mx))); [apply open_inv; assumption | | exact Hok].
     split; [reflexivity | exact Hm].
+  Qed.
+
+  Theorem sessions_refine : forall ss d0 m0,
+    disk_ok C K d0 -> (forall k, In k K -> assoc m0 k = file_of C (lookup C d0 k)) ->
+    Forall (fun s => 0 <= fst s /\ Forall op_ok (snd s)) ss ->
+    snd (sessions_run C clen cmem dirsize true true true d0 ss) = snd (spec_sessions C clen m0 ss).
+  Proof.
+    induction ss as [|[mx ops] ss IH]; intros d0 m0 Hd Hm Hall; [reflexivity|].
+    inversion Hall as [|? ? [Hmx Hok] Hrest]; subst. cbn [fst snd] in *. cbn [sessions_run spec_sessions].
+    assert (I0 : Inv (open_cache C d0 mx)) by (apply open_inv; assumption).
+    assert (R0 : Rel (open_cache C d0 mx) (mkS C m0 (norm_max mx))) by (split; [reflexivity | exact Hm]).
+    destruct (run_refines ops _ _ I0 R0 Hok) as (E1 & I1 & R1).
+    fold (norm_max mx).
+    destruct (kvs_run C clen cmem dirsize true true true (open_cache C d0 mx) ops) as [s xs] eqn:Ek.
+    destruct (spec_run C clen (mkS C m0 (norm_max mx)) ops) as [sp ys] eqn:Es.
+    cbn [fst snd] in *. subst ys.
+    specialize (IH (c_disk C s) (s_map C sp) (inv_disk _ I1) (proj2 R1) Hrest).
+    destruct (sessions_run C clen cmem dirsize true true true (c_disk C s) ss) as [d' zs].
+    destruct (spec_sessions C clen (s_map C sp) ss) as [m' ws]. cbn [snd] in *. subst ws. reflexivity.
   Qed.
 
   Lemma disk_ok_empty : disk_ok C K [].
@@ -961,7 +1001,7 @@ Proof. apply dedup_sorted, sort_index_sorted. Qed.
 Section TableProofs.
   Variable flen fmem : frame -> Z.
   Variable dirsize : Z.
-  Hypothesis Hfm : forall f, 0 <= fmem f <= flen f.
+  Hypothesis Hfm : forall f, 0 <= fmem f.
   Variable K : list name.
   Hypothesis HK : prefix_free K.
 
@@ -973,7 +1013,7 @@ Section TableProofs.
     let old := match stored s n with Some f => f | None => [] end in
     (match stored s n with Some f => flen f <= c_max frame s | None => True end) ->
     flen (merge_frames old new) <= c_max frame s ->
-    exists s', tbl_set flen fmem dirsize s n new t1 t2 ch1 ch2 = (s', TSet) /\
+    exists s', tbl_set flen fmem dirsize true true s n new t1 t2 ch1 ch2 = (s', TSet) /\
                Inv frame fmem K s' /\ c_max frame s' = c_max frame s /\
                stored s' n = Some (merge_frames old new) /\
                forall k, In k K -> k <> n -> stored s' k = stored s k.
@@ -981,7 +1021,7 @@ Section TableProofs.
     intros I HnK old Hfit1 Hfit2. unfold tbl_set.
     destruct (get_inv frame flen fmem dirsize Hfm K s n t1 ch1 I HnK) as (s1 & Hg & I1 & Hd1 & Hm1).
     rewrite Hg. unfold stored in *.
-    assert (Emerged : exists s2, update_file frame flen fmem s1 n (merge_frames old new) t2 ch2 = (s2, inl true) /\
+    assert (Emerged : exists s2, update_file frame flen fmem true true s1 n (merge_frames old new) t2 ch2 = (s2, inl true) /\
               Inv frame fmem K s2 /\ c_max frame s2 = c_max frame s1 /\
               lookup frame (c_disk frame s2) n = Some (File (merge_frames old new)) /\
               forall k, In k K -> k <> n ->
@@ -1002,7 +1042,7 @@ Section TableProofs.
   Theorem tbl_get_spec s n t ch :
     Inv frame fmem K s -> In n K ->
     (match stored s n with Some f => flen f <= c_max frame s | None => True end) ->
-    exists s', tbl_get flen fmem dirsize s n t ch = (s', match stored s n with Some f => TVal f | None => TUndef end) /\
+    exists s', tbl_get flen fmem dirsize true true s n t ch = (s', match stored s n with Some f => TVal f | None => TUndef end) /\
                Inv frame fmem K s' /\ c_max frame s' = c_max frame s /\ forall k, stored s' k = stored s k.
   Proof.
     intros I HnK Hfit. unfold tbl_get.
@@ -1013,32 +1053,129 @@ Section TableProofs.
       exists s1. split; [reflexivity|]. split; [exact I1|]. split; [exact Hm1|]. intros k. rewrite Hd1. reflexivity.
     - exists s1. split; [reflexivity|]. split; [exact I1|]. split; [exact Hm1|]. intros k. rewrite Hd1. reflexivity.
   Qed.
+  Definition top_ok (o : top) : Prop :=
+    match o with
+    | TOSet n _ _ _ _ _ | TOGet n _ _ | TOUnload n => In n K
+    | TOReopen mx => 0 <= mx
+    end.
+
+  Notation TRel := (Rel frame K).
+
+  Lemma tbl_step_refines s sp o : Inv frame fmem K s -> TRel s sp -> top_ok o ->
+    exists s' x, tbl_step flen fmem dirsize true true s o = (s', x) /\
+                 tspec_step flen sp o = (fst (tspec_step flen sp o), x) /\
+                 Inv frame fmem K s' /\ TRel s' (fst (tspec_step flen sp o)).
+  Proof.
+    intros I [Rm Rf] Hok. destruct o as [n new t1 t2 ch1 ch2|n t ch|n|mx]; cbn [tbl_step tspec_step top_ok] in *.
+    - unfold tbl_set.
+      destruct (get_inv frame flen fmem dirsize Hfm K s n t1 ch1 I Hok) as (s1 & Hg & I1 & Hd1 & Hm1).
+      rewrite Hg. rewrite (Rf n Hok), <- Rm.
+      assert (R1 : forall k, In k K -> assoc (s_map frame sp) k = file_of frame (lookup frame (c_disk frame s1) k))
+        by (intros k Hk; rewrite Hd1; apply Rf; exact Hk).
+      assert (Hupd : forall m,
+        exists s' x, (match update_file frame flen fmem true true s1 n m t2 ch2 with
+                      | (s2, inl true) => (s2, TSet) | (s2, inl false) => (s2, TErr KeyErr) | (s2, inr e) => (s2, TErr e) end) = (s', x) /\
+          (if flen m >? c_max frame s then (sp, TErr MemoryErr)
+           else (mkS frame (aset (s_map frame sp) n m) (c_max frame s), TSet)) =
+          (fst (if flen m >? c_max frame s then (sp, TErr MemoryErr)
+                else (mkS frame (aset (s_map frame sp) n m) (c_max frame s), TSet)), x) /\
+          Inv frame fmem K s' /\
+          TRel s' (fst (if flen m >? c_max frame s then (sp, TErr MemoryErr)
+                        else (mkS frame (aset (s_map frame sp) n m) (c_max frame s), TSet)))).
+      { intros m. pose proof (update_inv frame flen fmem Hfm K HK s1 n m t2 ch2 I1 Hok) as U. rewrite Hm1 in U.
+        destruct (flen m >? c_max frame s) eqn:E.
+        - rewrite U. exists s1, (TErr MemoryErr). cbn [fst]. split; [reflexivity|]. split; [reflexivity|].
+          split; [exact I1|]. split; [rewrite Hm1; exact Rm | exact R1].
+        - destruct U as (s2 & Hu & I2 & Hm2 & Hl2 & Hoth). rewrite Hu. exists s2, TSet. cbn [fst].
+          split; [reflexivity|]. split; [reflexivity|]. split; [exact I2|].
+          split; cbn [s_max s_map]; [exact Hm2|].
+          intros k Hk. destruct (name_eq_dec k n) as [->|Hne].
+          + rewrite assoc_aset_same, Hl2. reflexivity.
+          + rewrite assoc_aset_other by exact Hne. rewrite Hoth by assumption. apply R1. exact Hk. }
+      destruct (file_of frame (lookup frame (c_disk frame s) n)) as [old|] eqn:Ef.
+      + destruct (flen old >? c_max frame s) eqn:E.
+        * exists s1, (TErr MemoryErr). cbn [fst]. split; [reflexivity|]. split; [reflexivity|].
+          split; [exact I1|]. split; [rewrite Hm1; exact Rm | exact R1].
+        * exact (Hupd (merge_frames old new)).
+      + exact (Hupd (merge_frames [] new)).
+    - unfold tbl_get.
+      destruct (get_inv frame flen fmem dirsize Hfm K s n t ch I Hok) as (s1 & Hg & I1 & Hd1 & Hm1).
+      rewrite Hg. rewrite (Rf n Hok), <- Rm.
+      assert (R1 : TRel s1 sp) by (split; [rewrite Hm1; exact Rm | intros k Hk; rewrite Hd1; apply Rf; exact Hk]).
+      destruct (file_of frame (lookup frame (c_disk frame s) n)) as [f|] eqn:Ef.
+      + destruct (flen f >? c_max frame s); eexists s1, _; cbn [fst]; (split; [reflexivity|]); (split; [reflexivity|]); split; assumption.
+      + exists s1, TUndef. cbn [fst]. split; [reflexivity|]. split; [reflexivity|]. split; assumption.
+    - destruct (unload_inv frame fmem Hfm K s n I) as (Hi & Hd & Hmx). exists (unload_file frame s n), TNone. cbn [fst].
+      split; [reflexivity|]. split; [reflexivity|]. split; [exact Hi|].
+      split; [rewrite Hmx; exact Rm | intros k Hk; rewrite Hd; apply Rf; exact Hk].
+    - exists (reopen frame s mx), TNone. cbn [fst]. split; [reflexivity|]. split; [reflexivity|].
+      split; [apply open_inv; [exact (inv_disk _ _ _ _ I) | exact Hok]|].
+      split; [reflexivity | intros k Hk; apply Rf; exact Hk].
+  Qed.
+
+  (* T16.table over histories: the table store is a dictionary whose set is the documented merge *)
+  Theorem tbl_run_refines : forall ops s sp, Inv frame fmem K s -> TRel s sp -> Forall top_ok ops ->
+    snd (tbl_run flen fmem dirsize true true s ops) = snd (tspec_run flen sp ops) /\
+    Inv frame fmem K (fst (tbl_run flen fmem dirsize true true s ops)).
+  Proof.
+    induction ops as [|o ops IH]; intros s sp I R Hok; [simpl; auto|].
+    inversion Hok as [|? ? Ho Hops]; subst.
+    destruct (tbl_step_refines s sp o I R Ho) as (s' & x & Hk & Hs & Hi & Hr).
+    cbn [tbl_run tspec_run]. rewrite Hk, Hs.
+    destruct (IH s' (fst (tspec_step flen sp o)) Hi Hr Hops) as (E1 & E2).
+    destruct (tbl_run flen fmem dirsize true true s' ops) as [s2 xs] eqn:Ek.
+    destruct (tspec_run flen (fst (tspec_step flen sp o)) ops) as [sp2 ys] eqn:Es.
+    cbn [fst snd] in *. subst ys. auto.
+  Qed.
+
+  Theorem tbl_fresh_refines mx ops : 0 <= mx -> Forall top_ok ops ->
+    snd (tbl_run flen fmem dirsize true true (open_cache frame [] mx) ops)
+    = snd (tspec_run flen (mkS frame [] (norm_max mx)) ops).
+  Proof.
+    intros Hmx Hok. apply (tbl_run_refines ops (open_cache frame [] mx) (mkS frame [] (norm_max mx))); [| |exact Hok].
+    - apply open_inv; [apply disk_ok_empty; exact HK | exact Hmx].
+    - split; [reflexivity|]. intros k Hk. destruct HK as [Hnil _]. destruct k; [contradiction | reflexivity].
+  Qed.
 End TableProofs.
 
 (* ---------------------------------------------------------------- closing over the regenerated flags *)
-Lemma accounting_flag (b : bool) : b = true ->
-  forall (C : Type) (clen cmem : C -> Z) (dirsize : Z), (forall c, 0 <= cmem c <= clen c) ->
+Lemma accounting_flag (ou pu b : bool) : ou = true -> pu = true -> b = true ->
+  forall (C : Type) (clen cmem : C -> Z) (dirsize : Z), (forall c, 0 <= cmem c) ->
   forall K, prefix_free K -> forall d0 mx ops, disk_ok C K d0 -> 0 <= mx -> Forall (op_ok C K) ops ->
-  accounting C cmem (fst (kvs_run C clen cmem dirsize b (open_cache C d0 mx) ops)).
-Proof. intros ->. exact accounting_all_histories. Qed.
+  accounting C cmem (fst (kvs_run C clen cmem dirsize ou pu b (open_cache C d0 mx) ops)).
+Proof. intros -> -> ->. exact accounting_all_histories. Qed.
 
-Lemma refines_flag (b : bool) : b = true ->
-  forall (C : Type) (clen cmem : C -> Z) (dirsize : Z), (forall c, 0 <= cmem c <= clen c) ->
+Lemma refines_flag (ou pu b : bool) : ou = true -> pu = true -> b = true ->
+  forall (C : Type) (clen cmem : C -> Z) (dirsize : Z), (forall c, 0 <= cmem c) ->
   forall K, prefix_free K -> forall d0 m0 mx ops, disk_ok C K d0 -> 0 <= mx ->
   (forall k, In k K -> assoc m0 k = file_of C (lookup C d0 k)) -> Forall (op_ok C K) ops ->
-  snd (kvs_run C clen cmem dirsize b (open_cache C d0 mx) ops) = snd (spec_run C clen (mkS C m0 (norm_max mx)) ops).
-Proof. intros ->. exact refines_dictionary. Qed.
+  snd (kvs_run C clen cmem dirsize ou pu b (open_cache C d0 mx) ops) = snd (spec_run C clen (mkS C m0 (norm_max mx)) ops).
+Proof. intros -> -> ->. exact refines_dictionary. Qed.
 
-Lemma fresh_store_flag (b : bool) : b = true ->
-  forall (C : Type) (clen cmem : C -> Z) (dirsize : Z), (forall c, 0 <= cmem c <= clen c) ->
+Lemma fresh_store_flag (ou pu b : bool) : ou = true -> pu = true -> b = true ->
+  forall (C : Type) (clen cmem : C -> Z) (dirsize : Z), (forall c, 0 <= cmem c) ->
   forall K, prefix_free K -> forall mx ops, 0 <= mx -> Forall (op_ok C K) ops ->
-  snd (kvs_run C clen cmem dirsize b (open_cache C [] mx) ops) = snd (spec_run C clen (mkS C [] (norm_max mx)) ops).
+  snd (kvs_run C clen cmem dirsize ou pu b (open_cache C [] mx) ops) = snd (spec_run C clen (mkS C [] (norm_max mx)) ops).
 Proof.
-  intros Hb C clen cmem dirsize Hcm K HK mx ops Hmx Hok.
-  apply (refines_flag b Hb C clen cmem dirsize Hcm K HK [] [] mx ops); try assumption.
+  intros Ho Hp Hb C clen cmem dirsize Hcm K HK mx ops Hmx Hok.
+  apply (refines_flag ou pu b Ho Hp Hb C clen cmem dirsize Hcm K HK [] [] mx ops); try assumption.
   - apply disk_ok_empty. exact HK.
   - intros k Hk. destruct HK as [Hnil _]. destruct k; [contradiction | reflexivity].
 Qed.
+
+Lemma sessions_flag (ou pu b : bool) : ou = true -> pu = true -> b = true ->
+  forall (C : Type) (clen cmem : C -> Z) (dirsize : Z), (forall c, 0 <= cmem c) ->
+  forall K, prefix_free K -> forall ss d0 m0, disk_ok C K d0 ->
+  (forall k, In k K -> assoc m0 k = file_of C (lookup C d0 k)) ->
+  Forall (fun s => 0 <= fst s /\ Forall (op_ok C K) (snd s)) ss ->
+  snd (sessions_run C clen cmem dirsize ou pu b d0 ss) = snd (spec_sessions C clen m0 ss).
+Proof. intros -> -> ->. exact sessions_refine. Qed.
+
+Lemma table_flag (ou pu : bool) : ou = true -> pu = true ->
+  forall (flen fmem : frame -> Z) (dirsize : Z), (forall f, 0 <= fmem f) ->
+  forall K, prefix_free K -> forall mx ops, 0 <= mx -> Forall (top_ok K) ops ->
+  snd (tbl_run flen fmem dirsize ou pu (open_cache frame [] mx) ops) = snd (tspec_run flen (mkS frame [] (norm_max mx)) ops).
+Proof. intros -> ->. exact tbl_fresh_refines. Qed.
 
 Lemma merge_flag (b : bool) : b = true -> forall old new i,
   first_row i (merge_frames old new) = match first_row i old with Some v => Some v | None => first_row i new end.
